@@ -196,6 +196,19 @@ def run_history(case, rec, mode):
         elif kind == 'new_mpo':
             result = build_mpo(step[1])
             w.add_mpo(result, False)
+        elif kind in ('ctor_mps', 'ctor_mpo'):
+            # the public constructors with a scalar fill value or random entries (they mask the entries by the charges)
+            dsc = step[1]
+            fill = [1.0, 2, 0.5 - 1j, 'random', 0.0, -3][step[2] % 6]
+            kw = dict(fill=fill)
+            if fill == 'random':
+                kw['rng'] = np.random.default_rng(dsc['seed'])
+            if kind == 'ctor_mps':
+                result = ptn.MPS(dsc['qd'], dsc['qD'], **kw)
+                w.add_mps(result)
+            else:
+                result = ptn.MPO(dsc['qd'], dsc['qD'], **kw)
+                w.add_mpo(result, False)
         elif kind == 'ham':
             result = build_ham(w.fam)
             w.add_mpo(result, True)
@@ -460,6 +473,8 @@ def history(draw, tier, mode):
     steps = [
         st.tuples(st.just('new_mps'), md),
         st.tuples(st.just('new_mpo'), od),
+        st.tuples(st.just('ctor_mps'), md, sel),
+        st.tuples(st.just('ctor_mpo'), od, sel),
         st.tuples(st.just('ham')),
         st.tuples(st.just('identity'), sel),
         st.tuples(st.just('from_vector'), st.integers(0, 10**6), sel),
